@@ -14,7 +14,7 @@ from ..flow import Flow
 from ..paths import path_variants
 from ..tutil import (bound_args, concat_parts, mapped_over, np_call,
                      positional, seq_elems, term_strings, literal_parts,
-                     merge_fstr, expand_const_comp)
+                     merge_fstr, expand_const_comp, simp, items_as_subs)
 
 EXPLANATION = (
     "Static analysis of confidence.assign_confidence / "
@@ -1052,7 +1052,8 @@ def _retained_rows(ctx):
                          ("pep_iterator", "peps"),
                          ("target_iterator", "targets")):
         e = b.get(formal)
-        cs = chunk_source(Tw.of(e)) if e is not None else None
+        cs = chunk_source(simp(items_as_subs(expand_const_comp(
+            Tw.of(e))))) if e is not None else None
         got[formal] = cs
     ok_b = all(
         got[fm] is not None and got[fm][0] == ("attr", ("param", "self"), at)
